@@ -100,7 +100,7 @@ class C08(diffcheck.DiffProp):
     harness_bin = "c08"
     package = "rt"
     gen = gen_c08
-    counts = {"quick": 700, "thorough": 12000}
+    counts = {"quick": 400, "thorough": 12000}
     shards = 8
     thorough_release = False
     rule = ("cases = corpus (witnesses of the defects found) + random operation sequences (3..28 operations over 4 file "
